@@ -433,3 +433,57 @@ Theorem not_blocked_after_close raw c ls : 1 <= c ->
   let w := reach raw c ls in
   closew (w_sh w) = true -> cpc_ (w_co w) = CRead -> 0 < pipe (w_sh w).
 Proof. intros Hc w Hw Hr. exact (a_u1r _ _ (InvA_reach raw c ls Hc) Hw Hr). Qed.
+
+(** ---- facts used by the adapters' layer (iter/Adapter.v) ---- *)
+(** a consumer step never changes which call is in progress *)
+Lemma cstep_cop s c b ch : cop (snd (fst (fst (cstep s c b ch)))) = cop c.
+Proof.
+  unfold cstep. destruct (cpc_ c); simpl; auto.
+  - destruct (cop c); reflexivity.
+  - destruct (Nat.eqb ch 1); [reflexivity|]. destruct (pipe s); reflexivity.
+  - destruct (closed s); reflexivity.
+  - destruct (do_load s (itpos c)) as [[v|] s']; reflexivity.
+  - unfold none_exit, pend_exit. destruct (closed s); [|reflexivity]. destruct poll_none_retest; [reflexivity|]. destruct (cop c) eqn:E; simpl; auto.
+  - unfold none_exit, pend_exit. destruct (pipe s); [|reflexivity]. destruct poll_none_retest; [reflexivity|]. simpl. destruct (cop c) eqn:E; simpl; auto.
+  - unfold pend_exit. destruct (closed s); [reflexivity|]. destruct (cop c) eqn:E; simpl; auto.
+Qed.
+
+Lemma csolo_cop n w : cop (w_co (csolo n w)) = cop (w_co w).
+Proof.
+  revert w; induction n as [|n IH]; intro w; simpl; auto. rewrite IH. unfold cstep_w. simpl.
+  pose proof (cstep_cop (w_sh w) (w_co w) (w_bats w) 0) as H.
+  destruct (cstep (w_sh w) (w_co w) (w_bats w) 0) as [[[s c] b] es]. exact H.
+Qed.
+
+(** what a returned poll_signal call (non-blocking callback) can have reported *)
+Definition InvR (w : world) : Prop :=
+  cpc_ (w_co w) = CIdle -> cop (w_co w) = OPoll ->
+  cres_ (w_co w) = RPending \/ cres_ (w_co w) = RClosed \/ exists s v, cres_ (w_co w) = RSignal s v.
+
+Lemma InvR_wstep w l : InvR w -> InvR (fst (wstep w l)).
+Proof.
+  intro I. pose proof (co_unchanged_step w l) as U.
+  destruct l; try (unfold InvR; rewrite U; exact I); clear U;
+    destruct w as [sh co bats gone fr]; destruct co as [p op it res cb n]; unfold InvR in *; simpl in *.
+  - unfold ccall; simpl. destruct p; simpl; auto.
+    destruct o; simpl; try (intros; congruence); destruct it; simpl; auto; intros; congruence.
+  - unfold cstep; simpl. destruct p; simpl; auto.
+    + destruct op; simpl; intros; congruence.
+    + intros; destruct (closed sh); congruence.
+    + destruct (Nat.eqb ch 1); simpl; [intros; congruence|]. destruct (pipe sh); simpl; intros; congruence.
+    + destruct (closed sh); simpl; [auto|]. unfold scan_pc. destruct (itpos _ <? MAX_SIGNUM); intros; congruence.
+    + unfold do_load, scan_pc; simpl. destruct (slot sh _); simpl; [destruct (S _ <? MAX_SIGNUM); intros; congruence|].
+      intros _ _. right; right. eauto.
+    + unfold none_exit, pend_exit. destruct (closed sh); simpl; [|intros; congruence].
+      destruct poll_none_retest; simpl; [intros; congruence|]. destruct op; simpl; auto; intros; congruence.
+    + unfold none_exit, pend_exit. destruct (pipe sh); simpl; [|intros; congruence].
+      destruct poll_none_retest; simpl; [intros; congruence|]. destruct op; simpl; auto; intros; congruence.
+    + unfold pend_exit. destruct (closed sh); simpl; [auto|]. destruct op; simpl; auto; intros; congruence.
+Qed.
+
+Lemma InvR_reach raw c ls : InvR (reach raw c ls).
+Proof.
+  apply reach_ind.
+  - intros _ H. simpl in H. discriminate.
+  - intros w l I. apply InvR_wstep; assumption.
+Qed.
